@@ -312,7 +312,7 @@ theorem build_object_agrees (items : List (Bytes × Bytes)) (buf : Bytes)
       induction m with
       | nil => rfl
       | cons a m ih => simp only [List.map_cons, List.flatten_cons, List.length_append, u32be_length, ih, List.length_cons]; omega
-    simp only [Ctl.val_bind', Nat.zero_add, Rs.bitor_natCast, Rs.toBeBytes_u32_nat _ hw, Rs.enumerate, List.nil_append, hmod,
+    simp only [Ctl.val_bind', Nat.zero_add, Rs.bitor_natCast, Nat.or_comm m.length C.OBJECT_CONTAINER_TAG, Rs.toBeBytes_u32_nat _ hw, Rs.enumerate, List.nil_append, hmod,
       Res.map, Res.bind]
     have hrun := patch_run (ρ := Bytes) buf.length (Tr.build_object.loop2 (buf.length : Int))
       (fun k b bf h hl => bo_loop2_step buf.length k b bf h hl) (beN 4 (C.OBJECT_CONTAINER_TAG ||| m.length)) 0
